@@ -81,6 +81,8 @@ def floors(tier):
         "history:tail-edit": max(1, n // 2),
         "history:reverted": 2 * n,
         "history:inproc-edit": 2 * n,
+        "history:inproc-edit-same-size-and-mtime": 2 * n,
+        "same_size_and_mtime_confirmed": 2 * n,
         "history:same-name-home": n,
         "history:package": n,
         "history:lib-path": 3 * max(1, n - 3),
@@ -680,6 +682,24 @@ def g_content(cx):
         res = cx.run(h, runs=cx.argvs + [{"action": "copy", "src": ed, "dst": yml}] + cx.argvs)
         R.count("history:inproc-edit")
         judge(cx, res, cold + cold_e, "inproc-edit", "edit-between-rounds", variant=start, diff_key="cache/stale-after-edit/in-process")
+    # ---- the same while size and modification time of the file stay what they were (a variant deployed over the file with
+    #      rsync -t / cp -p; both texts padded with a trailing comment to one length): the content is the only difference
+    L = max(len(orig.encode()), len(edited.encode())) + 2
+    same = [t + "\n#" + "p" * (L - len(t.encode()) - 2) for t in (orig, edited)]
+    for start in ("cold", "warm"):
+        h = cx.new_home(copies=True)
+        yml = os.path.join(cx.data_dir(h), cx.model + ".yml")
+        write_private(yml, same[0])
+        ed = os.path.join(cx.base, "edited-same-size.yml")
+        write_private(ed, same[1])
+        if start == "warm":
+            cx.run(h)
+        res = cx.run(h, runs=cx.argvs + [{"action": "copy", "src": ed, "dst": yml, "preserve": True}] + cx.argvs)
+        R.count("history:inproc-edit-same-size-and-mtime")
+        if any(e["ev"] == "action" and e.get("what") == "copy" and e.get("preserved") and e.get("same_size") for e in res["events"]):
+            R.count("same_size_and_mtime_confirmed")
+        judge(cx, res, cold + cold_e, "inproc-edit-same-size-and-mtime", "edit-between-rounds", variant=start,
+              diff_key="cache/stale-after-edit/in-process-same-size-and-mtime")
     # ---- a process that loads the model cold and changes it in memory only (what-if script), then later runs
     for where in ("data", "cache"):
         h = cx.new_home()
